@@ -28,6 +28,7 @@ TOp == /\ l <= Len(Trace) /\ l' = l + 1
               [] o.o = "set_tag_lit" -> SetTagLit(o.k, o.v.s)
               [] o.o = "set_tag" -> SetTag1(o.k)
               [] o.o = "set_tag_from" -> SetTagFrom(o.k, o.k2)
+              [] o.o = "set_tag_unconv" -> SetTagUnconv(o.k, o.T)
               [] o.o = "drop_key" -> DropKey(o.k)
               [] o.o = "rename" -> Rename(o.k, o.k2)
               [] o.o = "cast" -> Cast(o.k, o.T)
